@@ -1,6 +1,7 @@
 //! unit: u02b
 //! properties: C02 C10 C07
 //! note: RAA blockers (PeerState::actions_blocking_raa_monitor_updates): registering a blocker on a channel appends it to that channel's list and never drops a blocker already registered (for this or any other channel) -- the monitor update of the downstream peer's next revoke_and_ack stays held until every upstream preimage it depends on is durably persisted
+//! trusted: R15/R6e (deep slice): claim_mpp_part, duplicate-claim branch: `entry.get_mut().retain(|iter| BODY)` with its captured flag `found_blocker`, as an index loop over the channel's blocker list carrying BODY verbatim (entry API elided: the function works on the list the entry lends); the removal of an emptied list after it is not sliced
 //! trusted: R15/R18 (deep slice of the function-local macro scan_commitment! in is_resolving_htlc_output): the fields of the HTLCSpendConfirmation event pushed when a confirmed spend needs no upstream action, verbatim as a function of the values in scope (monitor skeleton with both CSV delays)
 //! trusted: R15 (deep slice): from_channel_manager_data: the body of `for prev_hop in prev_htlcs` inside the filter_map closure that collects pending_claims_to_replay, verbatim as a function of one previous hop and the variables in scope at that point (the loop's `continue` and the closure's `fail_read = true; return None` are returned as the values Skip / FailRead); channel_monitors is a stub map answering from a ghost map, a monitor answers its ids and the number of its claimable balances
 //! trusted: R15 (deep slice): ChannelManager::process_pending_monitor_events: the body of the MonitorEvent::HTLCEvent arm (the logger construction is dropped), verbatim as a function of the event and the channel it came from; R5: the manager is a stub whose claim_funds_internal / fail_htlc_backwards_internal record their arguments in a ghost log (`&self` written `&mut self`); HTLCSource::failure_type and SentHTLCId::from_source are uninterpreted functions of the source
@@ -151,6 +152,53 @@ pub open spec fn is_registered(n: Map<ChannelId, Blockers>, m: Map<ChannelId, Bl
     retain(|iter| iter != &blocker)
 //@with
     retain(|iter| iter == &blocker)
+//@end
+
+// ---- a duplicate claim frees ONE copy of its own blocker and no other (claim_mpp_part, FreeDuplicateClaimImmediately) ----------
+//@extract lightning/src/ln/channelmanager.rs :: impl ChannelManager :: fn claim_mpp_part
+//@slice R15
+    let mut found_blocker = false; entry.get_mut().retain(|iter| { $body:any }); if entry.get().is_empty() {
+//@with
+    fn free_one_copy_of_the_duplicate_claims_blocker(list: &mut Vec<RAAMonitorUpdateBlockingAction>, blocker: RAAMonitorUpdateBlockingAction) -> bool {
+        let mut found_blocker = false;
+        // R6e: V.retain(|iter| BODY) as an index loop carrying BODY verbatim (the closure's captured state `found_blocker` is a local)
+        let ghost orig = list@;
+        let ghost mut fidx: int = -1;
+        let mut __i: usize = 0;
+        while __i < list.len()
+            invariant
+                __i <= list@.len() <= orig.len(),
+                ({ let k = orig.len() - (list@.len() - __i);
+                   &&& list@.skip(__i as int) == orig.skip(k)
+                   &&& !found_blocker ==> (fidx == -1 && k == __i && list@.take(__i as int) == orig.take(k) && forall|j: int| 0 <= j < k ==> orig[j] != blocker)
+                   &&& found_blocker ==> (0 <= fidx < k && orig[fidx] == blocker && (forall|j: int| 0 <= j < fidx ==> orig[j] != blocker) && list@.take(__i as int) == orig.take(k).remove(fidx)) }),
+            decreases list@.len() - __i
+        {
+            let ghost k = orig.len() - (list@.len() - __i);
+            let ghost cur = list@;
+            let ghost was_found = found_blocker;
+            proof { assert(cur[__i as int] == cur.skip(__i as int)[0]); assert(orig[k] == orig.skip(k)[0]); }
+            let __keep = { let iter = &list[__i]; $body };
+            proof { assert(cur.skip(__i as int).skip(1) =~= cur.skip(__i as int + 1)); assert(orig.skip(k).skip(1) =~= orig.skip(k + 1)); if !was_found && found_blocker { fidx = k; } }
+            if __keep { __i = __i + 1;
+                proof { assert(list@.take(__i as int) =~= cur.take(__i as int - 1).push(cur[__i as int - 1])); assert(orig.take(k + 1) =~= orig.take(k).push(orig[k]));
+                        if was_found { assert(orig.take(k + 1).remove(fidx) =~= orig.take(k).remove(fidx).push(orig[k])); } }
+            } else { list.remove(__i);
+                proof { assert(list@ =~= cur.remove(__i as int)); assert(list@.skip(__i as int) =~= cur.skip(__i as int + 1)); assert(list@.take(__i as int) =~= cur.take(__i as int));
+                        assert(orig.take(k + 1).remove(k) =~= orig.take(k)); }
+            }
+        }
+        proof { assert(orig.take(orig.len() as int) =~= orig); assert(list@.take(list@.len() as int) =~= list@); }
+        found_blocker
+    }
+//@ret r
+//@ensures P C02 a-duplicate-claim-removes-exactly-the-first-copy-of-its-own-blocker-every-other-blocker-of-the-channel-stays-registered
+    r ==> exists|i: int| 0 <= i < old(list)@.len() && old(list)@[i] == blocker && (forall|j: int| 0 <= j < i ==> old(list)@[j] != blocker) && #[trigger] old(list)@.remove(i) == final(list)@,
+    !r ==> final(list)@ == old(list)@ && forall|j: int| 0 <= j < old(list)@.len() ==> old(list)@[j] != blocker,
+//@mutant blockers_of_other_htlcs_in_front_are_freed_too
+    *iter != blocker || !first_blocker
+//@with
+    *iter != blocker && !first_blocker
 //@end
 
 // ---- holding: a channel with a registered blocker keeps its revoke_and_ack monitor update held -------
